@@ -432,14 +432,14 @@ theorem popIfEnded_closeCode (c : Conn σ) (sid : Nat) : (popIfEnded c sid).clos
   · split <;> rfl
   · rfl
 
-theorem conn_chunk_independent (hnb : NonBlocking o) (c : Conn σ)
+theorem conn_chunk_independent (c : Conn σ)
     (ht : c.cfg.k.truncatedNoError = false) (hsil : c.cfg.k.silentFrameNoEnd = false)
     (hlog : c.cfg.k.logDecode = false) (hnd : c.isDone = false) (sid : Nat) (hb : isUni sid = false)
     (hs : Fresh (streamOf c sid)) (chunks : List Bytes) (last : Bytes) (fin : Bool) :
     CEq (feedConn o c sid (chunks.map (·, false) ++ [(last, fin)]))
         (handleEvent o c (.streamData sid (chunks.flatten ++ last) fin)) := by
   have hspec := feedConn_spec o sid hb last fin chunks c hnd hs.receivingEnded
-  have hreq := feedAll_chunks o c.cfg hnb ht hsil hlog hs c.q chunks last fin
+  have hreq := feedAll_chunks o c.cfg ht hsil hlog hs c.q chunks last fin
   rw [handleEvent_bidi o c hnd sid hb]
   cases hw : recvReq o c.cfg (streamOf c sid) c.q (chunks.flatten ++ last) fin with
   | error e =>
